@@ -119,7 +119,7 @@ def generate(seed: int, tier: str, phase: str) -> Dict[str, Any]:
         # conversion with hand-inserted quantisation (shapes of C16's recorded findings and
         # already unit-scaled ops are kept out of these programs)
         plan["pre_unit_scale"] = True
-        plan["opts"]["avoid"] = plan["opts"]["avoid"] + ["nn_softmax", "u_forms", "sdpa_scale"]
+        plan["opts"]["avoid"] = plan["opts"]["avoid"] + ["nn_softmax", "u_forms", "sdpa_scale", "wexpr"]
     if phase == "known":
         if r.random() < 0.5:
             plan["ops"] = [{"op": "nn_root", "kind": r.choice(["linear", "sequential"])}]
@@ -313,11 +313,14 @@ def _programs(plan: Dict[str, Any], res: Dict[str, Any], log: Any, prf: Any, pro
         import unit_scaling.transforms as T
 
         try:
-            if fp8:
-                return T.simulate_fp8(mod)
-            return T.simulate_format(mod, tw.fmt_obj(f), tw.fmt_obj(b))
+            new = T.simulate_fp8(mod) if fp8 else T.simulate_format(mod, tw.fmt_obj(f), tw.fmt_obj(b))
         except Exception as e:
             raise Violation("transform_succeeds", "simulate_format_raised", f"{type(e).__name__}: {str(e)[:300]}")
+        # "nothing else changed": the same parameters, tied where the original ties them
+        d = tw.sharing_diff(mod, new)
+        if d:
+            raise Violation("equals_hand_quantised", "parameter_sharing_changed", d)
+        return new
 
     def compare(fn: Any, holder: Any, k: int, gseed: int, bwd_: bool, where: str, first: Dict[Any, str],
                 the_ref: Any, the_inputs: Any, is_lossless: bool, the_plain: Any, sig: str,
